@@ -486,6 +486,21 @@ class HasHtmlMarkup(HasHtml):
         return Markup(self.s)
 
 
+class HtmlDiffers:
+    """a form field / lazy string: its markup form (__html__) is not its str()"""
+    def __init__(self, s):
+        self.s = s
+
+    def __html__(self):
+        return self.s
+
+    def __str__(self):
+        return "str-form:" + self.s.upper()
+
+    def __repr__(self):
+        return f"HtmlDiffers({self.s!r})"
+
+
 class StrSub(str):
     pass
 
@@ -535,7 +550,11 @@ def matrix(ctx, jinja2):
     mx = Matrix(ctx, jinja2, autoescape_group=True)
     bad = ["<script>", "\"'&", "a b", "x"]
     texts = ["<b>x</b> & 'y'", "plain", ""]
-    kinds = [str, Markup, StrSub, HasHtml, HasHtmlMarkup]
+    class MarkupSub(Markup):
+        """a Markup subclass whose markup form is overridden"""
+        def __html__(self):
+            return Markup("<em>" + str.__str__(self) + "</em>")
+    kinds = [str, Markup, StrSub, HasHtml, HasHtmlMarkup, HtmlDiffers, MarkupSub]
 
     def judge_auto(res, case, safe_input_chars):
         for way, text in res.items():
@@ -554,8 +573,14 @@ def matrix(ctx, jinja2):
                     mx.apply("C24", f, v, (), (), expect=lambda v=v, html=html: Markup(html) if hasattr(v, "__html__") else escape(str(v)))
                 # forceescape escapes the markup form of its input, whatever its __html__ returns
                 mx.apply("C24", "forceescape", v, (), (), expect=lambda html=html: escape(html))
-                for f in ("safe", "string", "striptags"):
+                # striptags documents using the markup form too
+                mx.apply("C24", "striptags", v, (), (), expect=lambda html=html: Markup(html).striptags())
+                for f in ("safe", "string"):
                     mx.apply("C24", f, v, (), ())
+                # items with a markup form are joined in that form under autoescape
+                if hasattr(v, "__html__"):
+                    res = mx.apply("C24", "join", [v, "<p>"], ("|",), ("d",), fresh_value=lambda v=v: [v, "<p>"],
+                                   auto_expect=lambda html=html: Markup(html + "|&lt;p&gt;"))
                 mx.apply("C24", "urlize", v, (), ())
         for v in (42, None, True, 1.5, jinja2.Undefined(name="u"), ["<a>", {"k": "</script>"}], ("t", 1), {"<k>": ["'", "&"]}, "</script>", Markup("<i>")):
             for f in ("escape", "forceescape"):
